@@ -202,7 +202,7 @@ def run_conc(pid, tier, seed, plan):
             ops = set(op for th in sc["scenario"].split(":")[-1].split("|") for op in th.split(","))
             kinds = set(op[0] for op in ops if op)
             ris += [k for k in range(nprimary, len(exes))
-                    if (sc.get("extra_only") or i % runners[k].get("every", plan.get("extra_every", 1)) == 0)
+                    if not sc.get("primary_only") and (sc.get("extra_only") or i % runners[k].get("every", plan.get("extra_every", 1)) == 0)
                     and not (ops & set(runners[k].get("lacks", ()))) and not (kinds & set(runners[k].get("lacks_kinds", ())))]
             for ri in ris:
                 if sc.get("dfs", True):
